@@ -23,12 +23,14 @@ from vlib import gen_formula as G
 
 PROPERTY = "C18"
 LEVEL = "exploration"
-RULE = ("Ion sets (2-10 ions, charges -4..+4, molalities n*2^k spanning 2^-40..64 = 13 decades) are built by "
-        "construction in three modes: 'neutral' (free ions plus one balancing ion computed with integers, so the net "
+RULE = ("Ion sets (2-11 ions, charges -4..+4, molalities n*2^k spanning 2^-40..64 = 13 decades) are built by "
+        "construction in four modes: 'neutral' (free ions plus one balancing ion computed with integers, so the net "
         "charge is exactly 0 also in floating point), 'perturbed' (a neutral set whose dominant ion is multiplied by "
-        "1+10^-x, x in 0..4.9, hence |net| >= 1e-6*sum|b z|) and 'free' (log-uniform floats).  The expected warning "
-        "status is recomputed from the actual numbers with Fractions (exactly 0 -> no warning, >= 1e-6 relative -> "
-        "warning, anything between is not judged).  Dict form: keys are G1 formulas with the charge overridden to the "
+        "1+10^-x, x in 0..11), 'trace' (an exactly neutral set of major ions within 2^-20..64 plus one charged trace "
+        "ion without counter-ion 7..11.5 decades below the largest molality - the whole set stays within 12 decades) "
+        "and 'free' (log-uniform floats).  The expected warning status is recomputed from the actual numbers with "
+        "Fractions (exactly 0 -> no warning, |net| >= 1e-12*sum|b z| -> warning, anything between - what float "
+        "summation can blur - is not judged).  Dict form: keys are G1 formulas with the charge overridden to the "
         "drawn value, or a pool of real ions.  Non-trivial (ionic_*): >= 3 ions, some |z| >= 2 and >= 6 decades "
         "between the smallest and largest molality.  dh_constants: T 250-650 K, eps_r 5-100, rho 500-1500 kg/m3, "
         "b0 0.1-10 mol/kg, inputs in random compatible units; non-trivial = non-SI unit on some input.  log_gamma / "
@@ -164,14 +166,32 @@ def _reference(bs_si, zs):
     return tot / 2, net, absum
 
 
+NONNEUTRAL_MIN_REL = Fraction(1, 10 ** 12)
+
+
 def _classify(net, absum):
+    """`net` and `absum` are exact (Fractions of the floats actually handed over).
+    neutral     net == 0 exactly: must not warn (the generators make every partial float sum exact for these).
+    nonneutral  |net| >= 1e-12 * sum|b z|: must warn.  The float sum of <= 12 terms b*z (plus at most one unit
+                rescaling per term) deviates from the exact net by <= ~12 * 2.2e-16 * sum|b z| < 1e-14 * sum|b z|, so
+                the computed |net| is >= 0.99e-12 * sum|b z|; the code's own tolerance is 1e-14 * sum b z^2
+                <= 4e-14 * sum|b z| (|z| <= 4): a factor 25 below.  A composition this far from neutral is 'not
+                neutral' by any reading of the statement, whichever ion carries the imbalance.
+    grey        0 < |net| < 1e-12 * sum|b z|: the only zone floating point forces (round-off of a scaled or split
+                neutral set lands here, ~1e-16 relative); not judged."""
     if net == 0:
         return "neutral"
-    # 1e-6 relative to sum|b z|: eight decades above the code's threshold (1e-14 * sum b z^2 <= 4e-14 * sum|b z|)
-    # and of the rounding error of a float sum (~1e-15 * sum|b z|); the zone between is not judged.
-    if abs(net) >= Fraction(1, 10 ** 6) * absum:
+    if abs(net) >= NONNEUTRAL_MIN_REL * absum:
         return "nonneutral"
     return "grey"
+
+
+def _imbalance_label(net, absum):
+    if net == 0 or absum == 0:
+        return "rel_net=0"
+    d = -math.log10(float(abs(net) / absum))
+    return "rel_net=1e-%s" % ("0..3" if d < 3 else "3..6" if d < 6 else "6..8" if d < 8 else "8..10" if d < 10
+                              else "10..12" if d <= 12 else "12+")
 
 
 def judge_ionic(ctx, tag, got, nwarn, bs_si, zs, with_units):
@@ -194,6 +214,8 @@ def judge_ionic(ctx, tag, got, nwarn, bs_si, zs, with_units):
         return None
     cls = _classify(net, absum)
     ctx.label("%s:%s" % (tag, cls))
+    if tag == "base":
+        ctx.label(_imbalance_label(net, absum))
     if cls == "neutral" and nwarn:
         ctx.fail("warning_on_neutral:" + tag, nwarn=nwarn, zs=list(zs))
     elif cls == "nonneutral" and not nwarn:
@@ -226,12 +248,13 @@ def _spread_label(bs):
 # generators for ion sets
 # ---------------------------------------------------------------------------
 CHARGES = [1, -1, 2, -2, 3, -3, 4, -4, 0]
-MODES = ["neutral", "perturbed", "free"]
+MODES = ["neutral", "perturbed", "trace", "free"]
+TRACE_JMAX = 20        # major ions of a 'trace' set: n*2^-j, j <= 20 (2^-20..64; the balancing ion stays <= 2304)
 
 
-def _dyadic(draw):
+def _dyadic(draw, jmax=40):
     n = draw(st.integers(1, 64))
-    j = draw(st.integers(0, 40))
+    j = draw(st.integers(0, jmax))
     return n, -j
 
 
@@ -250,8 +273,10 @@ def _balancer(draw, ions):
 
 
 def _perturb(draw, zb):
-    """Multiply the molality of the ion dominating sum|b z| by 1 + 10^-x: |net| = delta*max|bz| >= delta/(10+delta) * sum|b z|."""
-    x = draw(st.floats(0, 4.9, allow_nan=False))
+    """Multiply the molality of the ion dominating sum|b z| by 1 + 10^-x: |net| = delta*max|bz| >= delta/(10+delta) * sum|b z|
+    (x up to 11: 1 + 1e-11 is still resolved to 2e-5 of the increment; whether the case is judged follows from the
+    exact net of the resulting floats, see _classify)."""
+    x = draw(st.floats(0, 11, allow_nan=False))
     idx = None
     for i, (z, b) in enumerate(zb):
         if z != 0 and (idx is None or abs(z) * b > abs(zb[idx][0]) * zb[idx][1]):
@@ -259,6 +284,16 @@ def _perturb(draw, zb):
     if idx is not None:
         zb[idx] = (zb[idx][0], zb[idx][1] * (1 + 10.0 ** (-x)))
     return zb
+
+
+def _trace_ion(draw, bs):
+    """One charged ion without counter-ion, 7..11.5 decades below the largest molality of the (exactly neutral) set:
+    the whole imbalance sits in a species far more dilute than the major ions (unbalanced trace acid in brine).  With
+    the major ions inside 2^-20..2304 the complete set spans <= 11.5 decades.  |net|/sum|b z| = |z| b_t / sum|b z|
+    is mostly 1e-8..1e-12; the few cases below 1e-12 fall into the unjudged zone by the exact recomputation."""
+    z = draw(st.sampled_from(CHARGES[:-1]))
+    x = draw(st.floats(7, 11.5, allow_nan=False))
+    return z, max(bs) * 10.0 ** (-x)
 
 
 def _free_molality(draw):
@@ -283,7 +318,7 @@ def ionic_list_cases(draw):
         ions = []
         for _ in range(n):
             z = draw(st.sampled_from(CHARGES))
-            nn, k = _dyadic(draw)
+            nn, k = _dyadic(draw, TRACE_JMAX if mode == "trace" else 40)
             ions.append((z, nn, k))
         zb = [(z, math.ldexp(nn, k)) for z, nn, k in ions]
         bal = _balancer(draw, ions)
@@ -293,6 +328,8 @@ def ionic_list_cases(draw):
             zb.append((0, 1.0))
         if mode == "perturbed":
             zb = _perturb(draw, zb)
+        elif mode == "trace":
+            zb.insert(draw(st.integers(0, len(zb))), _trace_ion(draw, [b for _, b in zb]))
     unit = draw(st.sampled_from(MOLALITY_UNITS))
     unit2 = None
     if mode == "free" and unit != "none" and draw(st.integers(0, 3)) == 3:
@@ -419,23 +456,30 @@ def ionic_dict_cases(draw):
         bs = [_free_molality(draw) for _ in specs]
         extra = None
     else:
-        dy = [_dyadic(draw) for _ in specs]
+        dy = [_dyadic(draw, TRACE_JMAX if mode == "trace" else 40) for _ in specs]
         bs = [math.ldexp(nn, k) for nn, k in dy]
         extra = _balancer(draw, [(z, nn, k) for z, (nn, k) in zip(zs, dy)])
-    if extra is not None or len(specs) < 2:
-        z_new, b_new = extra if extra is not None else (draw(st.sampled_from(CHARGES)), 1.0)
+
+    def add_ion(z_new, b_new):
+        """one more entry under a key not used so far (a G1 formula carrying the charge z_new)"""
         f = _with_charge(draw(_small_formulas_noel), z_new)
         cnt = 7
         while G.text(f) in seen:      # deterministic repair, practically never taken
             f = _with_charge({"prefix": "", "parts": [{"n": 1, "terms": [{"el": "Og", "count": str(cnt), "primes": ""}]}],
                               "hyd": "..", "charge": None, "suffix": "", "electron": False}, z_new)
             cnt += 1
+        seen.add(G.text(f))
         pos = draw(st.integers(0, len(specs)))
         specs.insert(pos, {"f": f})
         zs.insert(pos, z_new)
         bs.insert(pos, b_new)
+
+    if extra is not None or len(specs) < 2:
+        add_ion(*(extra if extra is not None else (draw(st.sampled_from(CHARGES)), 1.0)))
     if mode == "perturbed":
         bs = [b for _, b in _perturb(draw, list(zip(zs, bs)))]
+    elif mode == "trace":
+        add_ion(*_trace_ion(draw, bs))
     for s, b in zip(specs, bs):
         s["b"] = b
     case = {"mode": mode, "ions": specs, "unit": draw(st.sampled_from(MOLALITY_UNITS)),
@@ -861,10 +905,10 @@ def check_activity(case, ctx):
 SUBCHECKS = [
     SubCheck("ionic_list", check_ionic_list, strategy=ionic_list_cases(), quick=1600, thorough=120000,
              rule="list/tuple/ndarray molalities + charges; base, permuted, split, scaled (2^s and generic) variants",
-             tolerances={"value_rel": 1e-12, "relation_rel": 4e-12, "nonneutral_min_rel_net": 1e-6}),
+             tolerances={"value_rel": 1e-12, "relation_rel": 4e-12, "nonneutral_min_rel_net": 1e-12}),
     SubCheck("ionic_dict", check_ionic_dict, strategy=ionic_dict_cases(), quick=500, thorough=30000,
              rule="mapping formula -> molality; substances None / string / dict of Substance / synthetic Substance objects",
-             tolerances={"value_rel": 1e-12, "relation_rel": 4e-12, "nonneutral_min_rel_net": 1e-6}),
+             tolerances={"value_rel": 1e-12, "relation_rel": 4e-12, "nonneutral_min_rel_net": 1e-12}),
     SubCheck("dh_constants", check_dh, strategy=dh_cases(), quick=500, thorough=24000,
              rule="A and B at two points on the numeric, units= and constants-object paths",
              tolerances={"paths_rel": 1e-5, "own_formula_rel": 1e-5, "exponent_ratio_rel": 1e-9}),
